@@ -1,10 +1,10 @@
-CONSTANT WP = {"PutSingle", "PostSingle", "BulkDocs", "BulkDocsNE", "PutSingleNE", "ExtImport", "BlipPushRev"}
-CONSTANT RP = {"GetDoc", "GetRev", "OpenRevsAll", "OpenRevsList", "BulkGet", "AllDocs", "Changes", "Raw", "BlipPull", "PeerPush", "PeerPull"}
+CONSTANT WP <- TraceWP
+CONSTANT RP <- TraceRP
 CONSTANT MaxSteps = 4
 SPECIFICATION PSpec
 CONSTRAINT Progress
 POSTCONDITION Accept
 CHECK_DEADLOCK FALSE
-INVARIANT Fidelity
+INVARIANT FidelityR
 INVARIANT ReservedRejected
 INVARIANT PNotStuck
